@@ -10,7 +10,7 @@ import PnVerif.Model.Layout
       -> OK <xsz> <begin_var> <begin_rec> <recsize> <h_align> <v_align> <r_align> <n> {<isRec> <len> <begin>}*n | <hex of Hdr.encode>
          ERR <NC code>
     ENCL <schema, begin fields set, vsize fields = variable lengths>   -> <hex of Hdr.encode> | ERR code
-    SPEC <hex>    -> Spec.specDecode: OK <schema as stored> | refsOk    or NONE
+    SPEC <hex>    -> Spec.header: OK <schema as stored> | <refsOk> <bytes consumed>    or NONE
 
   schema / hex syntax: PnVerif/Model/HeaderText.lean
 -/
@@ -79,8 +79,8 @@ def step (line : String) : String :=
     match ofHex hex with
     | none => "bad-hex"
     | some file =>
-      match specDecode file with
-      | some d => s!"OK {showSchema d} | {d.refsOk}"
+      match Spec.header file with
+      | some (d, rest) => s!"OK {showSchema d} | {d.refsOk} {file.length - rest.length}"
       | none => "NONE"
   | _ => "bad-op"
 
